@@ -503,7 +503,7 @@ class InterpMachine(Machine):
         if focus:
             # swarm: a quarter of the runs concentrate on adaptive updates that
             # fire in the middle of a call with one NONE side
-            weights.update(evaluate=6, set_modes=2, adaptive=1, schedule=2, derivative=2,
+            weights.update(evaluate=6, set_modes=2, adaptive=1, schedule=2, derivative=4,
                            new_table=1, extend=1, write_read=0, read_missing=0, arm_raise=0)
         return {
             "R": R, "comps": comps, "bad": bad, "focus": focus, "provider": provider,
@@ -638,6 +638,22 @@ class InterpMachine(Machine):
     def _drawX(self, rng: random.Random, order: int = 1) -> tuple[str, Any, str]:
         form = rng.choice(["float", "0d", "list", "1d", "1d", "2d", "empty"]
                           if rng.random() < 0.15 else ["float", "0d", "list", "1d", "1d", "2d"])
+        if self.cfg.get("focus") and self._range() is not None and rng.random() < 0.35:
+            # mid-call focus: far-out direct evaluations build up pending points on one
+            # side; a later two-sided call then triggers the update on the other side
+            lo, hi = self._range()
+            span = max(hi - lo, 1e-3)
+            kind = rng.choice(["far_above", "far_below", "two_sided", "two_sided"])
+            if kind == "far_above":
+                pts = [self._clip(hi + span * rng.uniform(0.5, 1.5)) for _ in range(2)]
+            elif kind == "far_below":
+                pts = [self._clip(lo - span * rng.uniform(0.5, 1.5)) for _ in range(2)]
+            else:
+                pts = [self._clip(lo - span * rng.uniform(0.02, 0.4)),
+                       self._clip(hi + span * rng.uniform(0.02, 0.4))]
+                if rng.random() < 0.5:
+                    pts.reverse()
+            return "1d", pts, kind
         if self.provider == "FreeEnergy" and form in ("2d", "empty"):
             form = "1d"  # FreeEnergy documents temperatures as a float or a 1-D array
         place = rng.choice(["inside", "below", "above", "mixed", "mixed", "edge"])
